@@ -98,6 +98,12 @@ pub fn match_any(t: &Tables, cv: &CV, img: &[String], got: &NV, json_twin: bool)
             (Some(i), NV::Int(g)) if i == *g => Ok(()),
             _ => bad(format!("int {cv:?}")),
         },
+        // a 128-bit typed integer whose value fits 64 bits: the integer, or its decimal text
+        "intlike" => match (as_i64(cv), cv.decimal(), got) {
+            (Some(i), _, NV::Int(g)) if i == *g => Ok(()),
+            (_, Some(d), NV::Str(g)) if &d == g => Ok(()),
+            _ => bad(format!("integer (or its decimal text) {cv:?}")),
+        },
         "decstr" => match (cv.decimal(), got) {
             (Some(d), NV::Str(g)) if &d == g => Ok(()),
             (d, _) => bad(format!("decimal text {d:?}")),
@@ -151,12 +157,14 @@ pub fn match_any(t: &Tables, cv: &CV, img: &[String], got: &NV, json_twin: bool)
                 if v.len() != g.len() {
                     return bad(format!("kvlist of {} entries", v.len()));
                 }
-                if img[1] == "Bytes" || img[1] == "SeqKey" {
+                if !matches!(img[1].as_str(), "Str" | "Bool" | "I64" | "F64") {
                     // the text form of such a key is not decided: non-empty, distinct texts,
                     // and every value found under one of them (protobuf / JSON agreement is
                     // the twin check)
+                    // (the null / None key: its text may be empty)
+                    let may_be_empty = matches!(img[1].as_str(), "NullKey" | "OptKey");
                     for (i, (gk, _)) in g.iter().enumerate() {
-                        if gk.is_empty() || g[..i].iter().any(|(o, _)| o == gk) {
+                        if (gk.is_empty() && !may_be_empty) || g[..i].iter().any(|(o, _)| o == gk) {
                             return bad("non-empty, distinct text keys".into());
                         }
                     }
